@@ -4,11 +4,11 @@ CONSTANTS
   MaxFlows = 4
   OutKinds = {1, 2}
   FlowKinds = {1}
-  MaxOps = 1
+  MaxOps = 0
   Thin = 8
   ThinRes = 0
   FullDepth = 0
-  SampleMod = 16
+  SampleMod = 64
   SampleRes = 0
 INIT Init
 NEXT Next
